@@ -105,6 +105,22 @@ def registry(bs=16, state=None, buf='bytes|memoryview'):
                           'bytes(msg)[%s - old(self._cache_n):len(msg) - self._cache_n] + bytes(msg)[len(msg) - self._cache_n:])' % (BS, BS, BS)}},
         modifies=['self._data_size', 'self._cache.*', 'self._cache_n', 'self._cbc.g_fed', 'self._last_ct', 'self._last_pt'],
         unchanged_on_raise=['TypeError'], opaque=OPQ), {'self._cache': 'bytearray[%d]' % bs})
+    # ------------------------------------------------------------------ digest / verify (C03)
+    cached = '(self._mac_tag is not None and not self._update_after_digest)'
+    TAGV = 'spec.aead1.omac(%s, %s, %s, %s, self.digest_size)' % (FID, KEY, M, BS)
+    too_long = 'not %s and self._data_size > spec.aead1.omac_max(%s)' % (cached, BS)
+    reg.add(Contract(CM + '.digest', params={}, raises={'ValueError': ('iff', too_long)},
+                     ensures=ens({'tag': 'result == %s' % TAGV, 'cached': 'self._mac_tag == result'}),
+                     sets={'self._mac_tag': TAGV}, returns=TAGV,
+                     lemmas={'exit': {'head': '%s[:len(%s) - self._cache_n] == %s' % (M, M, FED),
+                                      'rest': '%s[len(%s) - self._cache_n:] == take(bytes(self._cache), self._cache_n)' % (M, M),
+                                      'residue': 'len(%s) %% %s == self._cache_n' % (M, BS)}},
+                     modifies=['self._mac_tag'], opaque=['spec.aead1.omac_k1', 'spec.aead1.omac_k2', 'spec.aead1.omac_max']))
+    reg.add(Contract(CM + '.verify', params={'mac_tag': buf.replace('bytes|memoryview', 'buffer')},
+                     raises={'ValueError': ('iff', '(%s) or bytes(mac_tag) != %s' % (too_long, TAGV))},
+                     ensures=ens({'cached': 'self._mac_tag == %s' % TAGV, 'none': 'result is None'}),
+                     sets={'self._mac_tag': TAGV}, modifies=['self._mac_tag'], opaque=OPQ,
+                     options={'on_raise_modifies': ['self._mac_tag']}))
     return reg
 
 
